@@ -72,19 +72,54 @@ func (z *Decimal) GobDecode(buf []byte) error {
 		return fmt.Errorf("Decimal.GobDecode: encoding version %d not supported", buf[0])
 	}
 
+	if len(buf) < 6 {
+		return fmt.Errorf("Decimal.GobDecode: buffer too small")
+	}
+
 	oldPrec := z.prec
 	oldMode := z.mode
 
+	// decode and validate everything before touching z
 	b := buf[1]
-	z.mode = RoundingMode((b >> 5) & 7)
-	z.acc = Accuracy((b>>3)&3) - 1
-	z.form = form((b >> 1) & 3)
-	z.neg = b&1 != 0
-	z.prec = binary.BigEndian.Uint32(buf[2:])
+	mode := RoundingMode((b >> 5) & 7)
+	acc := Accuracy((b>>3)&3) - 1
+	f := form((b >> 1) & 3)
+	prec := binary.BigEndian.Uint32(buf[2:])
+	if mode > ToPositiveInf || acc > Above || f > inf {
+		return fmt.Errorf("Decimal.GobDecode: invalid rounding mode, accuracy or form")
+	}
 
-	if z.form == finite {
-		z.exp = int32(binary.BigEndian.Uint32(buf[6:]))
-		z.mant = z.mant.setBytes(buf[10:])
+	var exp int32
+	var mant dec
+	if f == finite {
+		if len(buf) < 10+1 {
+			return fmt.Errorf("Decimal.GobDecode: buffer too small for a finite value")
+		}
+		exp = int32(binary.BigEndian.Uint32(buf[6:]))
+		mant = dec(nil).setBytes(buf[10:])
+		// the mantissa must be that of a valid Decimal: decimal words, a
+		// non-zero leading digit and no digit beyond the precision.
+		if len(mant) == 0 || mant[len(mant)-1] < _DB/10 {
+			return fmt.Errorf("Decimal.GobDecode: mantissa is not normalized")
+		}
+		for _, w := range mant {
+			if w >= _DB {
+				return fmt.Errorf("Decimal.GobDecode: invalid mantissa word")
+			}
+		}
+		if uint64(len(mant))*_DW-uint64(mant.trailingZeroDigits()) > uint64(prec) {
+			return fmt.Errorf("Decimal.GobDecode: mantissa longer than precision")
+		}
+	}
+
+	z.mode = mode
+	z.acc = acc
+	z.form = f
+	z.neg = b&1 != 0
+	z.prec = prec
+	if f == finite {
+		z.exp = exp
+		z.mant = mant
 	}
 
 	if oldPrec != 0 {
